@@ -145,6 +145,15 @@ func mgNamespaceConfig(name string, version int, users []mgUser) *models.Namespa
 	}
 }
 
+// mgBrokenConfig is a configuration that passes models.Namespace.Verify (slow_sql_time is
+// not checked there) but that NewNamespace refuses ("parse slowSQLTime error"): a prepare of
+// it fails, and at start-up CreateNamespaceManager skips it.
+func mgBrokenConfig(name string, version int, users []mgUser) *models.Namespace {
+	c := mgNamespaceConfig(name, version, users)
+	c.SlowSQLTime = "not-a-number"
+	return c
+}
+
 // mgVersionOf reads the version of a live namespace (-1 = no such namespace).
 func mgVersionOf(ns *Namespace) int {
 	if ns == nil {
